@@ -1,0 +1,17 @@
+// SPDX-FileCopyrightText: 2023 The Pion community <https://pion.ly>
+// SPDX-License-Identifier: MIT
+
+//go:build verif
+
+package stun
+
+// Proof-only code. This file is compiled only with the build tag `verif` (never in a normal build or test run);
+// its functions are compositions of the library's real functions and exist to be verified, modularly, against the
+// contracts in verif_contracts.go: each states a lemma of property C03 as the contract of a two-line program.
+
+// verifLemmaDecodeOfWire: decoding the bytes of a message whose header is complete (Built) and whose struct is the
+// parse of its bytes (Wire) succeeds and yields exactly the type, transaction ID and ordered attributes the struct
+// held ("decoding those raw bytes yields exactly ... the struct", the legacy alias 0x8020 apart).
+func verifLemmaDecodeOfWire(m *Message) error {
+	return m.Decode()
+}
